@@ -126,8 +126,12 @@ fn extract_morph_targets(mesh: &Mesh) -> &Option<Handle<Image>> {
 }
 
 pub(crate) fn bin_to_mesh(binary: &[u8]) -> Mesh {
-    let binary = decompress::decompress(binary).unwrap();
-    let Ok(data) = bincode::deserialize::<MeshData>(&binary) else {
+    // a download cut off at the transfer limit does not even decompress: same fallback as for
+    // bytes that do not deserialize
+    let Some(data) = decompress::decompress(binary)
+        .ok()
+        .and_then(|binary| bincode::deserialize::<MeshData>(&binary).ok())
+    else {
         return Mesh::new(
             PrimitiveTopology::TriangleList,
             RenderAssetUsages::MAIN_WORLD | RenderAssetUsages::RENDER_WORLD,
